@@ -348,6 +348,121 @@ theorem close_handshake_example :
     closeRun.b.trace = [.made, .lost .clean] ∧ closeRun.err = false := by
   decide +kernel
 
+/-! ### one channel closed in both directions while the connection stays up, whatever phase it was in -/
+
+/-- everything `_cleanup` owes for one channel: session told and released, channel unregistered, `_close_event` set,
+    no open / request waiter left, nobody blocked in `wait_closed()`, and if `create()` is still suspended the value
+    that wakes it has been set -/
+def CleanedUp (c : Chan) : Prop :=
+  cleaned c ∧ c.openWaiter = false ∧ c.reqWaiter = false ∧ c.wcPending = 0 ∧
+  (runDfa c.trace = some 0 ∨ runDfa c.trace = some 2) ∧ (c.stage ≠ .done → c.wakeVal.isSome = true)
+
+/-- **closed_channel_cleaned_any_phase (per channel, connection up).**  Start from ANY pair of channel objects
+    whose two directions are open and which satisfy the structural invariant `CInv` — established, or still in the
+    start-up phase: `_recv_paused = 'starting'`, `create()` suspended on an unanswered pty / exec / shell / subsystem
+    request (`reqWaiter`, `stage`), a server channel on which no session has been started.  Let the two
+    applications and the network do anything (`evs`: write, EOF, close, abort, pause, resume, exit on either side,
+    deliveries, scheduled `_cleanup`s).  Once the queues have drained, if a CLOSE has been sent by either side and no
+    side sits on undelivered data, then both ends are `closed`/`closed` and for BOTH channel objects `_cleanup` has
+    done all it owes: the session got its final `connection_lost` and is released, the channel is unregistered,
+    `_close_event` is set, no open / request waiter is left, nobody is blocked in `wait_closed()`, and a `create()`
+    that was suspended has the value that wakes it.  The phase plays no role: in particular a CLOSE that arrives
+    while the channel is still `'starting'` schedules `_cleanup` like any other (`flushClosePart` does not look at
+    `paused`).  The hypothesis `recvBuf = 0` is needed: see `startup_data_then_close_hang_witness`. -/
+theorem closed_channel_cleaned_any_phase (a b : Chan) (h0 : BothOpen a b) (evs : List HEv) :
+    let h := (HS.ofPair a b).run evs
+    h.quiescent → (h.a.sendSt = .closed ∨ h.b.sendSt = .closed) → h.a.recvBuf = 0 → h.b.recvBuf = 0 →
+    h.a.sendSt = .closed ∧ h.a.recvSt = .closed ∧ h.b.sendSt = .closed ∧ h.b.recvSt = .closed ∧
+    CleanedUp h.a ∧ CleanedUp h.b := by
+  intro h ⟨q1, q2, q3, q4⟩ hreq hra hrb
+  have hi : HInv h := hinv_run evs _ (hinv_ofPair a b h0)
+  have hc : CInv h.a ∧ CInv h.b := cinv_run evs _ h0.aI h0.bI
+  have step1 : ∀ (x y : Chan) (l : List CMsg), l = [] → x.sendSt = .closed →
+      (x.sendSt = .closed → CMsg.close ∈ l ∨ y.recvSt = .closePending ∨ y.recvSt = .closed) →
+      D3 y → y.recvBuf = 0 → LInv y → y.recvSt = .closed ∧ y.sendSt = .closed := by
+    intro x y l hl hx hd hd3 hb hly
+    have hr : y.recvSt = .closed := by
+      rcases hd hx with z | z | z
+      · rw [hl] at z; cases z
+      · have := hd3 z; omega
+      · exact z
+    exact ⟨hr, hly.d2 (Or.inr hr)⟩
+  have both : (h.b.recvSt = .closed ∧ h.b.sendSt = .closed) ∧ (h.a.recvSt = .closed ∧ h.a.sendSt = .closed) := by
+    rcases hreq with ha | hb
+    · have s1 := step1 h.a h.b h.ab q1 ha hi.d1ab hi.db hrb hi.lb
+      exact ⟨s1, step1 h.b h.a h.ba q2 s1.2 hi.d1ba hi.da hra hi.la⟩
+    · have s1 := step1 h.b h.a h.ba q2 hb hi.d1ba hi.da hra hi.la
+      exact ⟨step1 h.a h.b h.ab q1 s1.2 hi.d1ab hi.db hrb hi.lb, s1⟩
+  obtain ⟨⟨b1, b2⟩, ⟨a1, a2⟩⟩ := both
+  have fin : ∀ c : Chan, CInv c → cleaned c → CleanedUp c := by
+    intro c ci cl
+    obtain ⟨s, r, ce⟩ := cl
+    refine ⟨⟨s, r, ce⟩, ?_, ?_, ci.wc ce, ci.trF s, ?_⟩
+    · cases ho : c.openWaiter with
+      | false => rfl
+      | true => have := (ci.ow ho).1; rw [r] at this; cases this
+    · cases hr : c.reqWaiter with
+      | false => rfl
+      | true => have := (ci.rw hr).1; rw [r] at this; cases this
+    · intro hs
+      rcases ci.live hs with z | z | z
+      · have := (ci.ow z).1; rw [r] at this; cases this
+      · have := (ci.rw z).1; rw [r] at this; cases this
+      · exact z
+  refine ⟨a2, a1, b2, b1, fin _ hc.1 ?_, fin _ hc.2 ?_⟩
+  · rcases hi.d5a a1 with z | z
+    · rw [q3] at z; cases z
+    · exact z
+  · rcases hi.d5b b1 with z | z
+    · rw [q4] at z; cases z
+    · exact z
+
+/-- a client channel whose `create()` is suspended on its exec request (still `'starting'`), and the server's
+    channel on which no session has been started yet -/
+def startingPair : Chan × Chan :=
+  ({ server := false, sendSt := .opn, recvSt := .opn, sendChan := some 0, sendWin := 4, recvWin := 4, initWin := 4,
+     paused := .starting, session := true, trace := [.made], reqWaiter := true, stage := .waitReq },
+   { server := true, sendSt := .opn, recvSt := .opn, sendChan := some 0, sendWin := 4, recvWin := 4, initWin := 4,
+     paused := .starting, session := true, trace := [.made], fo := .finished })
+
+theorem startingPair_bothOpen : BothOpen startingPair.1 startingPair.2 := by
+  refine ⟨rfl, rfl, rfl, ?_, rfl, rfl, rfl, ?_⟩ <;> (constructor <;> decide)
+
+/-- the server closes the channel without answering the request (what `chan.close()` inside `exec_requested` does) -/
+def closeInStartup : HS :=
+  (HS.ofPair startingPair.1 startingPair.2).run
+    [.app false .close, .deliver false, .deliver true, .cleanup true, .cleanup false]
+
+/-- non-vacuity, start-up phase: the client's outstanding request is completed with `False` (so `create()` raises
+    `ChannelOpenError`), both sessions get `made, lost(None)`, both channels are unregistered -/
+theorem close_in_startup_example :
+    closeInStartup.ab = [] ∧ closeInStartup.ba = [] ∧ closeInStartup.ca = 0 ∧ closeInStartup.cb = 0 ∧
+    closeInStartup.a.reqWaiter = false ∧ closeInStartup.a.wakeVal = some (.reqVal false) ∧
+    closeInStartup.a.reg = false ∧ closeInStartup.a.trace = [.made, .lost .clean] ∧
+    closeInStartup.b.reg = false ∧ closeInStartup.b.trace = [.made, .lost .clean] ∧ closeInStartup.err = false := by
+  decide +kernel
+
+/-- the same with one byte written first -/
+def dataThenCloseInStartup : HS :=
+  (HS.ofPair startingPair.1 startingPair.2).run
+    [.app false .write, .app false .close, .deliver false, .deliver false, .deliver true, .cleanup false]
+
+/-- **the hypothesis `recvBuf = 0` cannot be dropped (defect D2 in asyncssh, present in the code and therefore in
+    the model).**  Data buffered while the channel is `'starting'` is only handed over once start-up completes; the
+    peer's CLOSE then leaves `close_pending` with a non-empty buffer, no `_cleanup` is scheduled, and since the
+    unanswered request can never be answered after a CLOSE, start-up never completes: everything is drained, both
+    CLOSEs have been exchanged, the server side is cleaned up — and the client's request waiter (hence
+    `create_session()`) is still pending, its session has not been told, the channel is still registered. -/
+theorem startup_data_then_close_hang_witness :
+    dataThenCloseInStartup.ab = [] ∧ dataThenCloseInStartup.ba = [] ∧ dataThenCloseInStartup.ca = 0 ∧
+    dataThenCloseInStartup.cb = 0 ∧ dataThenCloseInStartup.err = false ∧
+    dataThenCloseInStartup.a.sendSt = .closed ∧ dataThenCloseInStartup.a.recvSt = .closePending ∧
+    dataThenCloseInStartup.a.recvBuf = 1 ∧ dataThenCloseInStartup.a.paused = .starting ∧
+    dataThenCloseInStartup.a.reqWaiter = true ∧ dataThenCloseInStartup.a.reg = true ∧
+    dataThenCloseInStartup.a.session = true ∧ dataThenCloseInStartup.b.reg = false ∧
+    dataThenCloseInStartup.b.trace = [.made, .lost .clean] := by
+  decide +kernel
+
 /-! ### waiters above the session callbacks (`Model/LifecycleWaiters.lean`) -/
 
 open AsyncsshModel.Lifecycle.Waiters in
